@@ -242,6 +242,9 @@ func main() {
 			workers = n
 		}
 	}
+	if v := os.Getenv("GSIM_REPO"); v != "" {
+		repo = v // developer aid: check another tree (sensitivity runs); never used by registered commands
+	}
 	start := time.Now()
 	if *replayFile != "" {
 		b := prepare()
